@@ -1074,7 +1074,11 @@ class AstMixin:
         out = self._lookup_opt(env, "$yield")
         if out is _MISSING:
             raise Unsupported("yield outside generator run")
-        out.append(self.eval(e.value, env) if e.value is not None else None)
+        val = self.eval(e.value, env) if e.value is not None else None
+        hook = getattr(self, "yield_hook", None)
+        if hook is not None:
+            hook(self, env, val)
+        out.append(val)
         if len(out) > 20000:
             raise Unsupported("generator too long")
         return None
